@@ -6,7 +6,9 @@ reference lists; the registered scope provider returns `Postponed` for
 reference i in its r-th attempt iff a symbolic boolean post[i][r] says so.
 symx explores every feasible postponement schedule (z3 decides feasibility of
 each fork); on every path that loads successfully the resolved lists must
-equal the targets in textual order.  The space is finite; this is exhaustive
+equal the targets in textual order.  The same for multi-file loads (main file
++ imported files resolved by one round-robin loop, PlainNameImportURI wrapped
+by the schedule; key = file and reference position).  The space is finite; this is exhaustive
 enumeration steered by the solver and is labelled as such.
 """
 import itertools
@@ -34,6 +36,127 @@ CASES = [
     ("obj a obj b obj c user u refs a a b : more c, a, b ;", 'repeated targets, two lists'),
     ("obj a obj b obj c user u refs a b a : more c, a, c ;", 'non-adjacent repeats of a name within one list'),
 ]
+
+
+# multi-file loads: every model of one load is resolved by the same round-robin loop
+FILE_GRAMMAR = """
+Model: imports*=Import objs*=Obj users*=User;
+Import: 'import' importURI=STRING;
+Obj: 'obj' name=ID;
+User: 'user' name=ID ('refs' refs+=[Obj] ':')? ('one' one=[Obj] ':')? ('more' more+=[Obj][','])? ';';
+"""
+FILE_CASES = [
+    ({'main.m': "import 'lib.m' obj a obj b user u refs a x : ;",
+      'lib.m': "obj x obj y obj z user v refs x y z : ;"}, 'two files, a list in each'),
+    ({'main.m': "import 'lib.m' obj a user u one a : ;",
+      'lib.m': "import 'base.m' obj x obj y user v refs y k x : more x, k ;",
+      'base.m': "obj k user w one k : ;"}, 'three files, two lists in the middle one'),
+]
+
+
+def _write_files(files):
+    import os
+    import tempfile
+    d = tempfile.mkdtemp(prefix='c08_')
+    for fn, text in files.items():
+        with open(os.path.join(d, fn), 'w') as f:
+            f.write(text)
+    return d
+
+
+def _check_file_models(m, files):
+    import os
+    bad = []
+    models = {os.path.basename(fn): mod for fn, mod in m._tx_model_repository.all_models.filename_to_model.items()}
+    models.setdefault('main.m', m)
+    for fn, text in files.items():
+        mod = models.get(fn)
+        if mod is None:
+            bad.append({'file': fn, 'error': 'not loaded'})
+            continue
+        for u in mod.users:
+            for an in ('refs', 'more'):
+                got = [getattr(o, 'name', o) for o in getattr(u, an)]
+                exp = expected_names(text, u.name, an)
+                if got != exp:
+                    bad.append({'file': fn, 'user': u.name, 'attr': an, 'got': got, 'expected': exp})
+            one = expected_names(text, u.name, 'one')
+            if one and getattr(u.one, 'name', None) != one[0]:
+                bad.append({'file': fn, 'user': u.name, 'attr': 'one', 'got': repr(u.one), 'expected': one[0]})
+    return bad
+
+
+def load_files(fi, decide):
+    """one real multi-file load; decide(key, attempt) -> postpone?"""
+    import os
+    import shutil
+    from textx import metamodel_from_str
+    from textx.scoping import Postponed
+    from textx.scoping.providers import PlainNameImportURI
+    from textx.exceptions import TextXError
+    files = FILE_CASES[fi][0]
+    d = _write_files(files)
+    try:
+        mm = metamodel_from_str(FILE_GRAMMAR)
+        default = PlainNameImportURI()
+        attempts = {}
+
+        from textx.scoping import ModelLoader
+
+        class Scheduled(ModelLoader):
+            """the model-loading provider PlainNameImportURI behind a postponement schedule"""
+
+            def load_models(self, model, encoding='utf-8'):
+                return default.load_models(model, encoding=encoding)
+
+            def __call__(self, obj, attr, obj_ref):
+                from textx import get_model
+                key = '%s@%d' % (os.path.basename(get_model(obj)._tx_filename), obj_ref.position)
+                r = attempts.get(key, 0)
+                attempts[key] = r + 1
+                if decide(key, r):
+                    return Postponed()
+                return default(obj, attr, obj_ref)
+        mm.register_scope_providers({'*.*': Scheduled()})
+        try:
+            m = mm.model_from_file(os.path.join(d, 'main.m'))
+        except TextXError as e:
+            return ('fail', str(e)[:60].replace(d, ''))
+        except Exception as e:  # noqa
+            return ('bad', [{'error': '%s: %s' % (type(e).__name__, e)}])
+        bad = _check_file_models(m, files)
+        return ('bad' if bad else 'ok', bad)
+    finally:
+        shutil.rmtree(d, ignore_errors=True)
+
+
+def run_file_case(fi, max_rounds, timeout_ms):
+    ctx = Ctx(timeout_ms, max_paths=200000)
+
+    def path(c):
+        sched = []
+
+        def decide(key, r):
+            if r < max_rounds and c.branch(z3.Bool('post_%s_%d' % (key, r))):
+                sched.append((key, r))
+                return True
+            return False
+        out = load_files(fi, decide)
+        return (out[0], out[1], sorted(sched))
+    outs = ctx.explore(path)
+    outs = [('bad', [{'error': 'load without any postponement fails: %s' % o[1]}], o[2])
+            if o[0] == 'fail' and not o[2] else o for o in outs]
+    if not any(o[0] in ('ok', 'bad') for o in outs):
+        raise RuntimeError('vacuous file case: %r' % (outs[:1],))
+    return ctx, outs
+
+
+def replay_file_schedule(fi, schedule):
+    sset = {(k, r) for k, r in schedule}
+    out = load_files(fi, lambda key, r: (key, r) in sset)
+    if out[0] == 'fail':
+        return False, 'load fails: %s' % out[1]
+    return out[0] == 'bad', out[1]
 
 
 def run_case(ci, max_rounds, timeout_ms):
@@ -111,8 +234,13 @@ def is_known(sched_detail, bad):
 
 def obligation(item):
     ci, max_rounds, timeout_ms = item
-    ctx, outs = run_case(ci, max_rounds, timeout_ms)
-    res = {'case': CASES[ci][1], 'paths': ctx.paths, 'queries': ctx.queries, 'solver_s': ctx.secs,
+    if isinstance(ci, str):
+        ctx, outs = run_file_case(int(ci[1:]), max_rounds, timeout_ms)
+        desc = FILE_CASES[int(ci[1:])][1]
+    else:
+        ctx, outs = run_case(ci, max_rounds, timeout_ms)
+        desc = CASES[ci][1]
+    res = {'case': desc, 'paths': ctx.paths, 'queries': ctx.queries, 'solver_s': ctx.secs,
            'ok': 0, 'fail': 0, 'bad': [], 'truncated': ctx.truncated}
     for o in outs:
         if o[0] == 'ok':
@@ -220,11 +348,13 @@ def main():
     max_rounds = 2 if quick else 3
     timeout_ms = 20000
     items = [(ci, max_rounds, timeout_ms) for ci in cases]
+    items += [('f%d' % fi, 2, timeout_ms) for fi in (range(1) if quick else range(len(FILE_CASES)))]
     results = pmap(obligation, items)
     chk.cov['functions_encoded'] = src_hash(M.ReferenceResolver.resolve_one_step, M.parse_tree_to_objgraph)
     chk.cov['bounds'] = {'cases': [CASES[c][1] for c in cases], 'postponable_attempts_per_reference': max_rounds}
     chk.cov['stubs'] = ['scope provider = PlainName wrapped by a schedule-driven Postponed() decision']
-    chk.cov['outside_claim'] = ['longer lists / more rounds', 'multi-file models', 'providers that modify the model']
+    chk.cov['outside_claim'] = ['longer lists / more rounds', 'other file layouts', 'providers that modify the model']
+    chk.cov['bounds']['file_cases'] = [FILE_CASES[int(i[0][1:])][1] for i in items if isinstance(i[0], str)]
     chk.assumptions = ['finite schedule space explored exhaustively (solver-steered path enumeration)']
     paths = 0
     for it, (st, r, secs) in zip(items, results):
@@ -236,7 +366,12 @@ def main():
         if r['truncated']:
             chk.cov['inconclusive'] += 1
         for b in r['bad']:
-            bad, detail = replay_schedule(b['case'], b['schedule'])
+            if isinstance(b['case'], str):
+                bad, detail = replay_file_schedule(int(b['case'][1:]), b['schedule'])
+                what = FILE_CASES[int(b['case'][1:])][0]
+            else:
+                bad, detail = replay_schedule(b['case'], b['schedule'])
+                what = CASES[b['case']][0]
             chk.cov['traces_validated_against_impl'] += 1
             if not bad:
                 chk.cov['model_mismatches'] += 1
@@ -246,7 +381,7 @@ def main():
                                      'schedule %s gives %s' % (CASES[b['case']][0], b['schedule'], detail))
             else:
                 chk.violation('reference list out of textual order: %r schedule (position, attempt) %s -> %s'
-                              % (CASES[b['case']][0], b['schedule'], detail), b)
+                              % (what, b['schedule'], detail), b)
                 break
         chk.sample({'case': r['case'], 'schedules_explored': r['paths'], 'loaded': r['ok'],
                     'failed_to_resolve': r['fail'], 'out_of_order': r.get('nbad', 0)})
@@ -267,4 +402,6 @@ def replay(data):
     if data.get('repeated_loads'):
         r = repeated_loads()
         return bool(r), r
+    if isinstance(data['case'], str):
+        return replay_file_schedule(int(data['case'][1:]), [tuple(x) for x in data['schedule']])
     return replay_schedule(data['case'], data['schedule'])
